@@ -12,6 +12,11 @@ import (
 	"math/rand"
 	"os"
 	"strings"
+
+	ethcmn "github.com/ethereum/go-ethereum/common"
+	ethcrypto "github.com/ethereum/go-ethereum/crypto"
+
+	"github.com/Oneledger/protocol/data/keys"
 )
 
 func init() { subcmds["c05"] = c05Main }
@@ -154,7 +159,10 @@ func c05Main(args []string) int {
 	}
 	// OLVM flows: protected by the account nonce as well, so even re-encodings must be refused
 	if *only == "" || strings.HasPrefix(*only, "OLVM") {
-		for _, flow := range []string{"OLVM_TRANSFER", "OLVM_DRAIN_REFUND"} {
+		// OLVM_CALL_REVERT / OLVM_CALL_OOG / OLVM_CREATE_REVERT: the executed transaction ENDS IN A VM ERROR
+		// (status 0 receipt: gas charged, nonce consumed, nothing else) — it was executed in a block all the
+		// same and may never run again
+		for _, flow := range []string{"OLVM_TRANSFER", "OLVM_DRAIN_REFUND", "OLVM_CALL_REVERT", "OLVM_CALL_OOG", "OLVM_CREATE_REVERT"} {
 			l := newLab(0)
 			w := l.W
 			in := &BlockIn{Absent: map[int]bool{}}
@@ -167,6 +175,19 @@ func c05Main(args []string) int {
 				l.Rep.RunBlock(&BlockIn{Txs: [][]byte{txSend(w.Users[0], e.Addr, oltAmt("5000021000000000000"), l.memo())}, Absent: map[int]bool{}})
 				to := w.Users[1].Addr
 				base = txOLVM(e, &to, 0, "5000000000000000000", 21000, nil)
+			} else if flow == "OLVM_CALL_REVERT" || flow == "OLVM_CALL_OOG" {
+				rt, gas := c17RtRevert, int64(100000)
+				if flow == "OLVM_CALL_OOG" {
+					rt, gas = c17RtLoop, 60000
+				}
+				res := l.Rep.RunBlock(&BlockIn{Txs: [][]byte{txOLVM(e, nil, 0, "0", 300000, c17Deployer(rt))}, Absent: map[int]bool{}})
+				if len(res.Txs) != 1 || res.Txs[0].Code != 0 {
+					panic("c05: contract deployment failed: " + res.Txs[0].Log)
+				}
+				to := keys.Address(ethcrypto.CreateAddress(ethcmn.BytesToAddress(e.Addr), 0).Bytes())
+				base = txOLVM(e, &to, 1, "0", gas, nil)
+			} else if flow == "OLVM_CREATE_REVERT" {
+				base = txOLVM(e, nil, 0, "0", 300000, c17InitRevert)
 			} else {
 				to := w.Users[1].Addr
 				base = txOLVM(e, &to, 0, "1000000000000", 30000, nil)
